@@ -155,6 +155,22 @@ MargTable ==   \* [b][point] -> [ok, val CV]
         IF M.ok THEN [ok |-> TRUE, val |-> QuadAt(M, PointVec(KeptEnvs[e]))]
         ELSE [ok |-> FALSE, val |-> CV(Zero, 0, One)]]]
 
+\* the conditional law of the block B (= g.red) given the kept inputs at a point xA:
+\* covariance P_BB^-1, mean P_BB^-1 (eta_B - P_BA xA).  This is what a sample of g over g.red
+\* must be an affine image of white noise of (C14).
+CondTable ==
+  [b \in 1..BatchSize(Leaf) |->
+     LET D == Dense(Leaf, b - 1)
+         Pbb == SubMat(D.P, BPos, BPos)
+         d == Det(Pbb)
+     IN [e \in 1..Len(KeptEnvs) |->
+           IF IsU(d) \/ Sgn(d) <= 0 THEN [ok |-> FALSE, mean |-> <<>>, cov |-> <<>>]
+           ELSE LET Pi == Inv(Pbb)
+                    etaB == SubVec(D.eta, BPos)
+                    shift == IF APos = <<>> THEN etaB
+                             ELSE VSub(etaB, MVec(SubMat(D.P, BPos, APos), PointVec(KeptEnvs[e])))
+                IN [ok |-> TRUE, mean |-> MVec(Pi, shift), cov |-> Pi]]]
+
 \* log-normaliser (all reals marginalised), mean = P^-1 eta, per batch
 AllPos == [k \in 1..TotalDim(Leaf) |-> k]
 FullRank(b) == LET d == Det(Dense(Leaf, b).P) IN ~IsU(d) /\ Sgn(d) > 0
@@ -182,7 +198,7 @@ FullTable ==
 Emit ==
   PrintT(ToJson([tag |-> Tag, leaf |-> Leaf, red |-> RedSeq, keep |-> KeptIns,
                  pts |-> [k \in 1..Len(KeptIns) |-> [j \in 1..Len(RealPts) |-> RealSample(KeptIns[k][2].sh, j)]],
-                 batch |-> IntIns(Leaf), marg |-> MargTable, full |-> FullTable,
+                 batch |-> IntIns(Leaf), marg |-> MargTable, full |-> FullTable, cond |-> CondTable,
                  sig |-> [leaf |-> g.leaf, red |-> g.red]]))
 
 -----------------------------------------------------------------------------
